@@ -884,7 +884,7 @@ func c19Gen(tier string, r *hx.Rng) {
 	c19Silence()
 	defer c19Cleanup()
 	w := hx.Out
-	nprog := 10
+	nprog := 30
 	if tier == "thorough" {
 		nprog = 120
 	}
